@@ -726,6 +726,10 @@ func (c *Client) Start(msg *Message, handler Handler) error {
 			return err
 		}
 		if err := c.a.Start(msg.TransactionID, d); err != nil {
+			// The agent refused the transaction: forget it, so that its
+			// handler is not called for an event that carries the same ID.
+			c.delete(msg.TransactionID)
+
 			return err
 		}
 	}
